@@ -156,16 +156,52 @@ def user_ids(reg):
 
 def symbolize_leaves(eng, reg, tag="s", tie_paths=True):
     """replace every array length and variant index of a concrete DSL registry by constrained symbolic terms:
-    indices pairwise distinct within an enum (scale-info guarantees it); same-path enums share their index
-    variables when tie_paths (instantiations of one definition have one set of indices); arrays over the same
-    element id keep pairwise distinct lengths (scale-info interns identical types). Returns the new registry."""
-    reg = regdsl._clone(reg); n = 0; byelem = {}; shared = {}
+    indices pairwise distinct within an enum (scale-info guarantees it); with tie_paths, same-path enums share their
+    index variables and arrays sitting at the same position of same-path definitions share their length variable
+    (instantiations of one definition have one set of indices and lengths); arrays over the same element id with
+    different variables keep distinct lengths (scale-info interns identical types). Returns the new registry."""
+    reg0 = reg; reg = regdsl._clone(reg); n = 0; shared = {}
+    # array position keys
+    keys = {}
+    def walk(j, key, seen):
+        if j in seen or not isinstance(j, int) or j >= len(reg0): return
+        t = reg0[j]; d = t["def"]
+        if t["path"] and d[0] in ("composite", "variant"): return
+        seen = seen | {j}
+        if d[0] == "array": keys.setdefault(j, []).append(key); walk(d[2], key + ("[]",), seen)
+        elif d[0] in ("sequence", "compact"): walk(d[1], key + (d[0],), seen)
+        elif d[0] == "tuple":
+            for k, x in enumerate(d[1]): walk(x, key + (k,), seen)
+    for i, t in enumerate(reg0):
+        d = t["def"]
+        if not t["path"]: continue
+        pk = tuple(t["path"]) if tie_paths else (i,)
+        if d[0] == "composite":
+            for fi, f in enumerate(d[1]): walk(f["ty"], (pk, None, fi), frozenset())
+        elif d[0] == "variant":
+            for vi, v in enumerate(d[1]):
+                for fi, f in enumerate(v["fields"]): walk(f["ty"], (pk, vi, fi), frozenset())
+        for pi, (_, p) in enumerate(t["params"]):
+            if p is not None: walk(p, (pk, "param", pi), frozenset())
+    var_of_key = {}; arr_var = {}
+    for j, t in enumerate(reg):
+        d = t["def"]
+        if d[0] != "array": continue
+        ks = keys.get(j, [("lone", j)])
+        v = next((var_of_key[k] for k in ks if k in var_of_key), None)
+        if v is None: v = z3.BitVec("%s_len%d" % (tag, n), 32); n += 1
+        for k in ks: var_of_key.setdefault(k, v)
+        arr_var[j] = v; t["def"] = ("array", v, d[2])
+    byelem = {}
+    for j, v in arr_var.items(): byelem.setdefault(reg[j]["def"][2], []).append(v)
+    for vs in byelem.values():
+        uniq = []
+        for v in vs:
+            if not any(v.eq(u) for u in uniq): uniq.append(v)
+        if len(uniq) > 1: eng.assume(z3.Distinct(*uniq))
     for t in reg:
         d = t["def"]
-        if d[0] == "array":
-            v = z3.BitVec("%s_len%d" % (tag, n), 32); n += 1
-            t["def"] = ("array", v, d[2]); byelem.setdefault(d[2], []).append(v)
-        elif d[0] == "variant" and t["path"] not in (["Option"], ["Result"]):
+        if d[0] == "variant" and t["path"] not in (["Option"], ["Result"]):
             idx = []
             for pos, v_ in enumerate(d[1]):
                 key = (tuple(t["path"]), pos, v_["name"])
@@ -174,8 +210,6 @@ def symbolize_leaves(eng, reg, tag="s", tie_paths=True):
                     x = z3.BitVec("%s_idx%d" % (tag, n), 8); n += 1; shared[key] = x
                 v_["index"] = x; idx.append(x)
             if len(idx) > 1: eng.assume(z3.Distinct(*idx))
-    for vs in byelem.values():
-        if len(vs) > 1: eng.assume(z3.Distinct(*vs))
     return reg
 
 def faithful_check(eng, reg, settings, gen_out, ids, depth=None):
